@@ -107,7 +107,7 @@ PROPS = {
         "streams": ["map", "mapcollide", "mpersist"], "driver": {"map": "map", "mapcollide": "map", "mpersist": "map"}, "level": "proof",
         "trusted_base": LEAN_TB, "assumptions": MAP_ASSUME,
         "rule": "map histories (set new / overwrite / remove present and absent / get / has / count / pop / type / three iterator flavours) at T in {256,257,511,512,1024,32768,random}; digests: the real digester, the real POOLED digester with a non-injective hash input (genuine collisions on all levels), and adversarial tables (first-level only, deeper levels, all levels, 1-3 digest levels, about one key per digest with large elements); values tiny / mid / around the value limit / just over half the element limit (externalised when larger); distinct = distinct (T, digest mode, length) programs",
-        "explanation": "Theorems: inv_new, get/has/set/remove/pop/count_refines: for EVERY digest function consistent with key equality (any hash distribution), every legal T, every number of digest levels, the map model refines dictionary operations, key-not-found exactly for absent keys, the only other refusal is the collision limit for a NEW key, MapInv (size bands, sorted unique digests, group shapes, routing by first digest, sibling links) preserved. Tie: every operation replayed on the model (observations, net storage effect, dump of every stored slab incl. collision-group slabs, periodic full dumps, decoded registers after commits). Oracle: Go map.",
+        "explanation": "Theorems: inv_new, get/has/set/remove/pop/count/setType_refines: for EVERY digest function consistent with key equality (any hash distribution), every legal T, every number of digest levels, the map model refines dictionary operations, key-not-found exactly for absent keys, the only other refusal is the collision limit for a NEW key, MapInv (size bands, sorted unique digests, group shapes, routing by first digest, sibling links) preserved; set_refines_any: the same for references / storables that fit the value limit (stored as they are) besides plain values of any size (externalised above the limit); run_refines: for EVERY list of requests set/get/has/remove/count/setType/pop issued to a new map the list of answers (large values read back through their slab) is an answer list of an association-list dictionary started empty, and MapInv holds after every prefix. Tie: every operation replayed on the model (observations, net storage effect, dump of every stored slab incl. collision-group slabs, periodic full dumps, decoded registers after commits). Oracle: Go map.",
     },
     "C12": {
         "streams": ["mapcollide"], "driver": {"mapcollide": "map"}, "level": "proof",
